@@ -318,3 +318,355 @@ Proof.
       unfold padd. cbn [fst]. pose proof (IH false (be16 (nthN (take HEADER_LEN w) 4) (nthN (take HEADER_LEN w) 5))
         (nthN (take HEADER_LEN w) 6) (drop HEADER_LEN w) x Hs). lia.
 Qed.
+
+(* ------------------------------------------------------------------------------------------ *)
+(* Part C: the stream parser conserves the walk                                                 *)
+(* ------------------------------------------------------------------------------------------ *)
+Section WalkMachine.
+Variable maxc : N.
+
+Definition kst (st : sstate) : bool := match st with SValues _ => true | _ => false end.
+
+(* the walk from the parser's position over (unparsed bytes ++ not-yet-fed bytes) *)
+Definition W (a : ast) (u : bytes) : N * bool := WK (kst (a_st a)) (a_prem a) (a_pad a) (a_raw a ++ u).
+
+(* a' is a later state of a: complete records [o] were appended to the output, and they are exactly what the
+   walk loses *)
+Definition w_rel (a a' : ast) : Prop :=
+  bytes_ok (a_raw a) -> bytes_ok (a_raw a') /\
+  exists o, a_out a' = a_out a ++ o /\ whole o /\ forall u, W a u = padd (snd (counts o)) (W a' u).
+
+Definition w_post (a : ast) (fl : aflow) : Prop :=
+  match fl with AContinue l' | ABreak l' | AErr l' _ => w_rel a (al l') | APanic _ => True end.
+
+Lemma w_rel_refl a : w_rel a a.
+Proof.
+  intros H. split; [exact H|]. exists []. split; [symmetry; apply app_nil_r|]. split; [apply whole_nil|].
+  intros u. rewrite counts_nil. cbn [snd]. symmetry. apply padd_0.
+Qed.
+
+Lemma w_rel_trans a1 a2 a3 : w_rel a1 a2 -> w_rel a2 a3 -> w_rel a1 a3.
+Proof.
+  intros H1 H2 Hb. destruct (H1 Hb) as (Hb2 & o1 & E1 & W1 & L1). destruct (H2 Hb2) as (Hb3 & o2 & E2 & W2 & L2).
+  split; [exact Hb3|]. exists (o1 ++ o2). split; [rewrite E2, E1, app_assoc; reflexivity|].
+  split; [apply whole_app; assumption|]. intros u. rewrite L1, L2, padd_padd, (counts_app_w o1 o2 W1 W2). reflexivity.
+Qed.
+
+Lemma w_post_trans a1 a2 fl : w_rel a1 a2 -> w_post a2 fl -> w_post a1 fl.
+Proof.
+  intros H12 H. destruct fl as [l'|l'|l' e|n]; cbn [w_post] in *; try (apply (w_rel_trans _ _ _ H12 H)). exact I.
+Qed.
+
+Lemma pfin_W a parsed' out' o st' res cap' n : out' = a_out a ++ o -> whole o ->
+  ((o = [] /\ kst st' = kst (a_st a) /\ (kst (a_st a) = false \/ n < a_prem a)) \/
+   (snd (counts o) = 1 /\ kst (a_st a) = true /\ n = a_prem a /\ 0 < a_prem a)) ->
+  w_post a (pfin' a parsed' out' st' res cap' n).
+Proof.
+  intros Eo Ho Hc. unfold pfin'. cbv zeta.
+  destruct (N.ltb_spec (N.min (a_prem a) (len (a_raw a))) n) as [Hn|Hn]; [exact I|].
+  assert (Hrel : w_rel a (mkA (a_B a) (a_space a) parsed' (drop n (a_raw a)) out' (a_req a) (a_stream a)
+                              (a_prem a - n) (a_pad a) st')).
+  { intros Hb. cbn [a_raw a_out]. split; [apply bytes_ok_drop; exact Hb|]. exists o. split; [exact Eo|]. split; [exact Ho|].
+    intros u. unfold W. cbn [a_B a_space a_parsed a_raw a_out a_req a_stream a_prem a_pad a_st].
+    destruct Hc as [(-> & Ek & Hk)|(Ec & Ek & -> & Hp)].
+    - rewrite counts_nil. cbn [snd]. rewrite padd_0, Ek.
+      rewrite (WK_adv (kst (a_st a)) (a_prem a) (a_pad a) (a_raw a ++ u) n ltac:(lia) ltac:(rewrite len_app; lia) Hk).
+      rewrite (drop_app_le n (a_raw a) u) by lia. reflexivity.
+    - rewrite Ec, Ek. rewrite WK_prem by exact Hp. rewrite len_app.
+      destruct (N.ltb_spec (len (a_raw a) + len u) (a_prem a)) as [Hl|_]; [lia|].
+      rewrite N.sub_diag, (drop_app_le (a_prem a) (a_raw a) u) by lia. cbn [b2n]. f_equal. apply WK_k0. }
+  match goal with |- w_post _ (if ?c then _ else _) => destruct c end; cbn [w_post al]; exact Hrel.
+Qed.
+
+Lemma payload_W l : 0 < a_prem (al l) -> w_post (al l) (aparse_payload maxc l).
+Proof.
+  intros Hp. rewrite aparse_payload_eq. cbv zeta. destruct l as [a res cap]. cbn [al ares acap] in *.
+  assert (NO : forall parsed' st' res' cap' n, kst st' = kst (a_st a) -> (kst (a_st a) = false \/ n < a_prem a) ->
+             w_post a (pfin' a parsed' (a_out a) st' res' cap' n)).
+  { intros parsed' st' res' cap' n H1 H2. apply (pfin_W a parsed' (a_out a) []); [symmetry; apply app_nil_r|apply whole_nil|].
+    left. split; [reflexivity|]. split; assumption. }
+  destruct (a_st a) as [| |vars] eqn:Est.
+  - destruct cap as [c|]; apply NO; try reflexivity; left; reflexivity.
+  - apply NO; [reflexivity|left; reflexivity].
+  - destruct (nv_run (take (N.min (a_prem a) (len (a_raw a))) (a_raw a))) as [ps rest] eqn:En.
+    pose proof (nv_run_rest_len (take (N.min (a_prem a) (len (a_raw a))) (a_raw a))) as Hr.
+    rewrite En in Hr. cbn [snd] in Hr. rewrite len_take in Hr.
+    destruct (N.ltb_spec (len (a_raw a)) (a_prem a)) as [Hlt|Hge].
+    + apply NO; [reflexivity|right; lia].
+    + apply (pfin_W a (a_parsed a) _ (write_response (vars_of_pairs vars ps) maxc)); [reflexivity|apply gv_whole|].
+      right. rewrite gv_counts, Est. cbn [snd kst]. repeat split; lia.
+Qed.
+
+Lemma hgo_W l st cl pl out added :
+  (bytes_ok (a_raw (al l)) -> exists o, out = a_out (al l) ++ o /\ whole o /\
+     forall u, W (al l) u = padd (snd (counts o)) (WK (kst st) cl pl (drop HEADER_LEN (a_raw (al l)) ++ u))) ->
+  w_post (al l) (StreamInv.hgo l st cl pl out added).
+Proof.
+  intros H. unfold StreamInv.hgo. cbn [w_post al]. intros Hb. cbn [a_raw a_out].
+  split; [apply bytes_ok_drop; exact Hb|]. destruct (H Hb) as (o & E & Ho & L). exists o. split; [exact E|]. split; [exact Ho|].
+  intros u. rewrite L. reflexivity.
+Qed.
+
+Lemma input_not_gv t : is_input_stream t = true -> (t =? RT_GetValues) = false.
+Proof. intros H. apply is_input_cases in H. destruct H as [-> | ->]; reflexivity. Qed.
+
+Lemma head_W l : a_prem (al l) = 0 -> a_pad (al l) = 0 -> w_post (al l) (aparse_head l).
+Proof.
+  intros Hp Hq. rewrite aparse_head_eq. cbv zeta.
+  destruct (negb (a_boundary (al l))); [exact I|].
+  destruct (N.ltb_spec (len (a_raw (al l))) HEADER_LEN) as [Hl|Hl]; [apply w_rel_refl|].
+  assert (HW : forall u, W (al l) u = wk_hd (take HEADER_LEN (a_raw (al l))) (drop HEADER_LEN (a_raw (al l)) ++ u)).
+  { intros u. unfold W. rewrite Hp, Hq. apply WK_head_app. exact Hl. }
+  unfold wk_hd in HW.
+  assert (PLAIN : forall st cl pl added, kst st = false ->
+            (forall u, W (al l) u = WK false cl pl (drop HEADER_LEN (a_raw (al l)) ++ u)) ->
+            w_post (al l) (StreamInv.hgo l st cl pl (a_out (al l)) added)).
+  { intros st cl pl added Hk H. apply hgo_W. intros _. exists []. split; [symmetry; apply app_nil_r|]. split; [apply whole_nil|].
+    intros u. rewrite counts_nil, Hk. cbn [snd]. rewrite padd_0. apply H. }
+  destruct (hdr_decode (take HEADER_LEN (a_raw (al l)))) as [t hid cl pl|v|t] eqn:Ed.
+  - destruct (is_input_stream t && (hid =? r_id (a_req (al l)))) eqn:Hin.
+    + apply andb_true_iff in Hin. destruct Hin as [Hin _].
+      assert (Hg : gvk t hid = false) by (unfold gvk; rewrite (input_not_gv t Hin); reflexivity).
+      destruct (cmp_input_streams (r_role (a_req (al l))) t (a_stream (al l))) as [[| |]|].
+      * apply PLAIN; [reflexivity|]. intros u. rewrite HW, Hg. reflexivity.
+      * destruct (cl =? 0); cbn [negb]; [cbn [w_post al]; apply w_rel_refl|].
+        apply PLAIN; [reflexivity|]. intros u. rewrite HW, Hg. reflexivity.
+      * cbn [w_post al]. apply w_rel_refl.
+      * exact I.
+    + destruct ((t =? RT_AbortRequest) && (hid =? r_id (a_req (al l)))); [apply w_rel_refl|].
+      destruct ((t =? RT_BeginRequest) && negb (hid =? r_id (a_req (al l)))) eqn:Hbg.
+      { apply andb_true_iff in Hbg. destruct Hbg as [Hbg _]. apply N.eqb_eq in Hbg. subst t.
+        apply hgo_W. intros Hb. exists (end_record 0 PS_CantMpxConn hid).
+        assert (Hid : hid < 65536).
+        { apply hdr_decode_ok_inv in Ed. destruct Ed as (_ & -> & _ & _).
+          pose proof (bytes_ok_take HEADER_LEN _ Hb) as Hh. apply be16_lt; apply nthN_lt; exact Hh. }
+        split; [reflexivity|]. split; [apply end_whole; [unfold PS_CantMpxConn; lia|exact Hid]|].
+        intros u. rewrite (end_counts PS_CantMpxConn hid ltac:(unfold PS_CantMpxConn; lia) Hid), padd_0, HW. reflexivity. }
+      destruct ((t =? RT_GetValues) && hdr_is_management t hid) eqn:Hgv.
+      * apply hgo_W. intros _. exists []. split; [symmetry; apply app_nil_r|]. split; [apply whole_nil|].
+        intros u. rewrite counts_nil. cbn [snd kst]. rewrite padd_0, HW. unfold gvk. rewrite Hgv. reflexivity.
+      * apply PLAIN; [reflexivity|]. intros u. rewrite HW. unfold gvk. rewrite Hgv. reflexivity.
+  - apply w_rel_refl.
+  - apply hgo_W. intros Hb. pose proof (bytes_ok_take HEADER_LEN _ Hb) as Hh.
+    exists (unk_record t (be16 (nthN (take HEADER_LEN (a_raw (al l))) 2) (nthN (take HEADER_LEN (a_raw (al l))) 3))).
+    apply hdr_decode_badtype_inv in Ed. subst t.
+    assert (H1 : nthN (take HEADER_LEN (a_raw (al l))) 1 < 256) by (apply nthN_lt; exact Hh).
+    assert (H2 : be16 (nthN (take HEADER_LEN (a_raw (al l))) 2) (nthN (take HEADER_LEN (a_raw (al l))) 3) < 65536)
+      by (apply be16_lt; apply nthN_lt; exact Hh).
+    split; [reflexivity|]. split; [apply unk_whole; assumption|].
+    intros u. rewrite (unk_counts _ _ H1 H2), HW. reflexivity.
+Qed.
+
+Lemma after_payload_W l : w_post (al l) (after_payload l).
+Proof.
+  unfold after_payload. cbv zeta.
+  destruct (N.ltb_spec 0 (a_pad (al l))) as [Hq|Hq].
+  - destruct (N.eqb_spec (a_prem (al l)) 0) as [Hp|Hp]; cbn [negb]; [|exact I].
+    assert (ADV : forall n, n <= a_pad (al l) -> n <= len (a_raw (al l)) ->
+              w_rel (al l) (a_set (al l) (a_parsed (al l)) (drop n (a_raw (al l))) (a_out (al l)) (a_prem (al l))
+                                  (a_pad (al l) - n) (a_st (al l)))).
+    { intros n H1 H2 Hb. unfold a_set. cbn [a_raw a_out]. split; [apply bytes_ok_drop; exact Hb|].
+      exists []. split; [symmetry; apply app_nil_r|]. split; [apply whole_nil|].
+      intros u. unfold W. cbn [a_B a_space a_parsed a_raw a_out a_req a_stream a_prem a_pad a_st].
+      rewrite counts_nil. cbn [snd]. rewrite padd_0, Hp.
+      rewrite (WK_pad_adv _ (a_pad (al l)) (a_raw (al l) ++ u) n) by (rewrite ?len_app; lia).
+      rewrite (drop_app_le n (a_raw (al l)) u) by lia. reflexivity. }
+    destruct (N.leb_spec (len (a_raw (al l))) (a_pad (al l))) as [Hl|Hl].
+    + cbn [w_post al]. pose proof (ADV (len (a_raw (al l))) Hl ltac:(lia)) as H.
+      rewrite (drop_all (len (a_raw (al l))) (a_raw (al l))) in H by lia. exact H.
+    + set (l2 := mkAL (a_set (al l) (a_parsed (al l)) (drop (a_pad (al l)) (a_raw (al l))) (a_out (al l))
+                              (a_prem (al l)) 0 (a_st (al l))) (ares l) (acap l)).
+      apply (w_post_trans (al l) (al l2)).
+      * unfold l2. cbn [al]. pose proof (ADV (a_pad (al l)) ltac:(lia) ltac:(lia)) as H. rewrite N.sub_diag in H. exact H.
+      * apply head_W; unfold l2, a_set; cbn [al a_prem a_pad]; [exact Hp|reflexivity].
+  - destruct (N.eq_dec (a_prem (al l)) 0) as [Hp|Hp].
+    + apply head_W; [exact Hp|lia].
+    + rewrite aparse_head_eq. cbv zeta. unfold a_boundary.
+      destruct (N.eqb_spec (a_prem (al l)) 0) as [Hz|_]; [contradiction|]. cbn [andb negb]. exact I.
+Qed.
+
+Lemma iter_W l : w_post (al l) (aparse_iter maxc l).
+Proof.
+  rewrite aparse_iter_eq.
+  destruct (N.ltb_spec 0 (a_prem (al l))) as [Hp|Hp]; [|apply after_payload_W].
+  pose proof (payload_W l Hp) as H.
+  destruct (aparse_payload maxc l) as [l'|l'|l' e|n]; cbn [w_post] in H.
+  - apply (w_post_trans _ _ _ H). apply after_payload_W.
+  - exact H.
+  - exact H.
+  - exact I.
+Qed.
+
+Lemma loop_W fuel : forall l, w_post (al l) (aparse_loop maxc fuel l).
+Proof.
+  induction fuel as [|f IH]; intros l; [exact I|].
+  cbn [aparse_loop]. destruct (a_raw (al l)) as [|b r]; [apply w_rel_refl|].
+  pose proof (iter_W l) as H.
+  destruct (aparse_iter maxc l) as [l'|l'|l' e|n]; cbn [w_post] in H.
+  - apply (w_post_trans _ _ _ H). apply IH.
+  - exact H.
+  - exact H.
+  - exact I.
+Qed.
+
+(* every call conserves the walk: the records it appends to the output are the replies owed for the records it
+   went through *)
+Theorem walk_law a new dest a' s : bytes_ok (a_raw a) -> bytes_ok new ->
+  (aparse maxc a new dest = AOk a' s \/ exists e, aparse maxc a new dest = AFail a' e s) ->
+  bytes_ok (a_raw a') /\
+  exists o, a_out a' = a_out a ++ o /\ whole o /\ forall u, W a (new ++ u) = padd (snd (counts o)) (W a' u).
+Proof.
+  intros Hb Hn Hres. unfold aparse in Hres.
+  destruct (match dest with Some _ => negb (len (a_parsed a) =? 0) | None => false end).
+  { destruct Hres as [H|[e H]]; discriminate H. }
+  destruct (a_space a <? len new).
+  { destruct Hres as [H|[e H]]; discriminate H. }
+  cbv zeta in Hres.
+  assert (FIN : forall l', w_rel (mkA (a_B a) (a_space a - len new) (a_parsed a) (a_raw a ++ new) (a_out a) (a_req a)
+                                     (a_stream a) (a_prem a) (a_pad a) (a_st a)) (al l') ->
+            bytes_ok (a_raw (al l')) /\
+            exists o, a_out (al l') = a_out a ++ o /\ whole o /\ forall u, W a (new ++ u) = padd (snd (counts o)) (W (al l') u)).
+  { intros l' H. destruct (H ltac:(cbn [a_raw]; apply bytes_ok_app; split; assumption)) as (Hb' & o & E & Ho & L).
+    split; [exact Hb'|]. exists o. split; [exact E|]. split; [exact Ho|]. intros u. rewrite <- L. unfold W.
+    cbn [a_B a_space a_parsed a_raw a_out a_req a_stream a_prem a_pad a_st]. rewrite <- app_assoc. reflexivity. }
+  match type of Hres with context [aparse_loop maxc ?f ?l] =>
+    pose proof (loop_W f l) as H; destruct (aparse_loop maxc f l) as [l'|l'|l' e'|n] end;
+    cbn [w_post al] in H.
+  - destruct Hres as [Hr|[e Hr]]; [|discriminate Hr]. inversion Hr; subst a' s. apply FIN, H.
+  - destruct Hres as [Hr|[e Hr]]; [|discriminate Hr]. inversion Hr; subst a' s. apply FIN, H.
+  - destruct Hres as [Hr|[e Hr]]; [discriminate Hr|]. inversion Hr; subst a' s. apply FIN, H.
+  - destruct Hres as [Hr|[e Hr]]; discriminate Hr.
+Qed.
+
+(* ---- where a call stops ---- *)
+(* nothing can be done with the unparsed bytes: nothing is owed for them; and inside a record they do not complete it *)
+Lemma stuck_W a : stuck a -> fst (W a []) = 0 /\ (a_boundary a = false -> snd (W a []) = false).
+Proof.
+  unfold W, a_boundary. rewrite app_nil_r. intros [H|[[H1 H2]|(H1 & H2 & H3)]].
+  - rewrite H, WK_nil. cbn [fst snd]. split; [reflexivity|exact (fun x => x)].
+  - rewrite WK_prem by exact H1. destruct (N.ltb_spec (len (a_raw a)) (a_prem a)); [|lia]. split; reflexivity.
+  - rewrite H1, H2. split; [apply WK_lt8; exact H3|]. intros H. discriminate H.
+Qed.
+
+(* a call that reports neither stream data nor the end of the stream stops only when stuck *)
+Lemma aparse_stuck a new dest a' s : a_inv a -> legal a new dest -> dest <> Some 0 ->
+  aparse maxc a new dest = AOk a' s -> s_end s = false -> s_stream s = 0 -> stuck a'.
+Proof.
+  intros Hinv Hleg Hd E Hend Hstr. rewrite (aparse_eq maxc a new dest Hleg) in E.
+  pose proof (loop_ok maxc _ _ (linv_l0 a new dest Hinv Hleg) (fuel_l0 a new dest Hinv Hleg)) as LO.
+  pose proof (loop_brk maxc (2 * N.to_nat (a_B a) + 8) (l0 a new dest)) as LB.
+  destruct (aparse_loop maxc (2 * N.to_nat (a_B a) + 8) (l0 a new dest)) as [l'|l'|l' e|n];
+    cbn [loop_post brk_flow] in LO, LB; try contradiction; try discriminate E.
+  assert (Ea : al l' = a') by congruence. assert (Es : ares l' = s) by congruence. subst a' s.
+  destruct LB as [St|[Se|Sc]].
+  - exact St.
+  - rewrite Se in Hend. discriminate Hend.
+  - exfalso. destruct LO as (P & _). pose proof (p_cap _ _ _ P) as Hc. unfold cap_rel in Hc.
+    cbn [l0 acap ares res0 s_stream] in Hc. destruct dest as [c|].
+    + destruct Hc as (d & c' & C1 & _ & _ & C4 & C5). rewrite Sc in C1. injection C1 as <-.
+      apply Hd. f_equal. lia.
+    + destruct Hc as (C1 & _). rewrite Sc in C1. discriminate C1.
+Qed.
+
+(* a call without a capacity limit stops only when stuck, or at a record boundary (end of the stream) *)
+Definition s_post (l : alstate) (fl : aflow) : Prop :=
+  acap l = None ->
+  match fl with
+  | AContinue l' => acap l' = None
+  | ABreak l' => stuck (al l') \/ a_boundary (al l') = true
+  | _ => True
+  end.
+
+Lemma pfin_S a parsed' out' st' res n : 0 < a_prem a ->
+  (n = N.min (a_prem a) (len (a_raw a)) \/ (len (a_raw a) < a_prem a /\ n <= len (a_raw a))) ->
+  match pfin' a parsed' out' st' res None n with
+  | AContinue l' => acap l' = None
+  | ABreak l' => stuck (al l')
+  | _ => True
+  end.
+Proof.
+  intros Hp Hn. unfold pfin'. cbv zeta.
+  destruct (N.ltb_spec (N.min (a_prem a) (len (a_raw a))) n) as [Hlt|Hle]; [exact I|]. cbn [a_prem].
+  destruct ((a_prem a - n =? 0) && (n <? len (a_raw a))) eqn:Hc; [reflexivity|].
+  unfold stuck. cbn [al a_raw a_prem a_pad]. apply andb_false_iff in Hc.
+  destruct Hn as [Hn|[H1 H2]].
+  - left. apply drop_all. destruct Hc as [Hc|Hc]; [apply N.eqb_neq in Hc|apply N.ltb_ge in Hc]; lia.
+  - right. left. rewrite len_drop. lia.
+Qed.
+
+Lemma payload_S l : 0 < a_prem (al l) -> acap l = None ->
+  match aparse_payload maxc l with
+  | AContinue l' => acap l' = None
+  | ABreak l' => stuck (al l')
+  | _ => True
+  end.
+Proof.
+  intros Hp Hc. rewrite aparse_payload_eq. cbv zeta. destruct l as [a res cap]. cbn [al ares acap] in *. subst cap.
+  destruct (a_st a).
+  - apply pfin_S; [exact Hp|left; reflexivity].
+  - apply pfin_S; [exact Hp|left; reflexivity].
+  - destruct (nv_run (take (N.min (a_prem a) (len (a_raw a))) (a_raw a))) as [ps rest] eqn:En.
+    pose proof (nv_run_rest_len (take (N.min (a_prem a) (len (a_raw a))) (a_raw a))) as Hr.
+    rewrite En in Hr. cbn [snd] in Hr. rewrite len_take in Hr.
+    destruct (N.ltb_spec (len (a_raw a)) (a_prem a)) as [Hlt|Hge].
+    + apply pfin_S; [exact Hp|right; split; [exact Hlt|lia]].
+    + apply pfin_S; [exact Hp|left; reflexivity].
+Qed.
+
+Lemma head_S l : s_post l (aparse_head l).
+Proof.
+  intros Hc. rewrite aparse_head_eq. cbv zeta.
+  destruct (a_boundary (al l)) eqn:Hb; cbn [negb]; [|exact I].
+  destruct (len (a_raw (al l)) <? HEADER_LEN); [right; exact Hb|].
+  assert (GO : forall st cl pl out added, match StreamInv.hgo l st cl pl out added with
+     | AContinue l' => acap l' = None | ABreak l' => stuck (al l') \/ a_boundary (al l') = true | _ => True end).
+  { intros. unfold StreamInv.hgo. cbn [acap]. exact Hc. }
+  destruct (hdr_decode (take HEADER_LEN (a_raw (al l)))) as [t hid cl pl|v|t]; [|exact I|apply GO].
+  destruct (is_input_stream t && (hid =? r_id (a_req (al l)))).
+  - destruct (cmp_input_streams (r_role (a_req (al l))) t (a_stream (al l))) as [[| |]|]; try apply GO; try exact I.
+    + destruct (negb (cl =? 0)); [apply GO|]. cbn [al]. right. exact Hb.
+    + cbn [al]. right. exact Hb.
+  - destruct ((t =? RT_AbortRequest) && (hid =? r_id (a_req (al l)))); [exact I|].
+    destruct ((t =? RT_BeginRequest) && negb (hid =? r_id (a_req (al l)))); [apply GO|].
+    destruct ((t =? RT_GetValues) && hdr_is_management t hid); apply GO.
+Qed.
+
+Lemma after_payload_S l : s_post l (after_payload l).
+Proof.
+  unfold after_payload. cbv zeta. destruct (0 <? a_pad (al l)); [|apply head_S].
+  destruct (negb (a_prem (al l) =? 0)); [intros _; exact I|].
+  destruct (len (a_raw (al l)) <=? a_pad (al l)).
+  - intros _. left. left. reflexivity.
+  - intros Hc. apply (head_S (mkAL _ (ares l) (acap l))). exact Hc.
+Qed.
+
+Lemma iter_S l : s_post l (aparse_iter maxc l).
+Proof.
+  intros Hc. rewrite aparse_iter_eq. destruct (N.ltb_spec 0 (a_prem (al l))) as [Hp|Hp]; [|apply after_payload_S; exact Hc].
+  pose proof (payload_S l Hp Hc) as H. destruct (aparse_payload maxc l) as [l'|l'|l' e|n]; try exact I.
+  - apply after_payload_S. exact H.
+  - left. exact H.
+Qed.
+
+Lemma loop_S fuel : forall l, acap l = None ->
+  match aparse_loop maxc fuel l with
+  | AContinue _ => False
+  | ABreak l' => stuck (al l') \/ a_boundary (al l') = true
+  | _ => True
+  end.
+Proof.
+  induction fuel as [|f IH]; intros l Hc; [exact I|]. cbn [aparse_loop].
+  destruct (a_raw (al l)) as [|x t] eqn:Er; [left; left; exact Er|].
+  pose proof (iter_S l Hc) as H. destruct (aparse_iter maxc l) as [l'|l'|l' e|n]; try exact H; try exact I.
+  apply IH. exact H.
+Qed.
+
+Lemma aparse_none_stop a new a' s : aparse maxc a new None = AOk a' s -> stuck a' \/ a_boundary a' = true.
+Proof.
+  unfold aparse. destruct (a_space a <? len new); [discriminate|]. cbv zeta.
+  match goal with |- context [aparse_loop maxc ?f ?l] =>
+    pose proof (loop_S f l eq_refl) as H; destruct (aparse_loop maxc f l) as [l'|l'|l' e'|n] end;
+    intros E; try discriminate E; [contradiction|].
+  inversion E; subst a' s. exact H.
+Qed.
+End WalkMachine.
